@@ -8,13 +8,13 @@
    inverse of the array, the array denotes pm, and every Pop/Peek answer is a key of minimal priority.
    UpFix = FALSE models RemoveAt without percolateUp (a seeded defect) to show the invariants have teeth. *)
 EXTENDS Integers, Sequences, FiniteSets, TLC, Json
-CONSTANTS Keys, Prios, Inits, UpFix
+CONSTANTS Keys, Prios, Inits, UpFix, PDiv
 VARIABLES a, m, pm, op
 vars == <<a, m, pm, op>>
 Absent == 0
 N(s) == Len(s)
 At(s, i) == s[i + 1]                                   \* 0-based
-Less(s, i, j) == At(s, i)[2] < At(s, j)[2]
+Less(s, i, j) == At(s, i)[2] \div PDiv < At(s, j)[2] \div PDiv
 Parent(i) == (i - 1) \div 2
 \* a state of the inner heap: [a, m]
 Notify(st, i) == [st EXCEPT !.m[At(st.a, i)[1]] = i]
@@ -35,7 +35,7 @@ Cur == [a |-> a, m |-> m]
 Set(st) == a' = st.a /\ m' = st.m
 R(name, args, res) == op' = [name |-> name, args |-> args, res |-> res, alt |-> <<>>]
 SetSeq(S) == LET RECURSIVE F(_) F(T) == IF T = {} THEN <<>> ELSE LET x == CHOOSE x \in T : \A y \in T : x <= y IN <<x>> \o F(T \ {x}) IN F(S)
-MinKeysOf(f) == {k \in Keys : f[k] # 0 /\ \A j \in Keys : f[j] # 0 => f[k] <= f[j]}
+MinKeysOf(f) == {k \in Keys : f[k] # 0 /\ \A j \in Keys : f[j] # 0 => f[k] \div PDiv <= f[j] \div PDiv}
 \* a Pop/Peek answer: the model's own answer plus the other minima the property allows (ties)
 RM(name, res) == op' = [name |-> name, args |-> <<>>, res |-> res, alt |-> SetSeq(MinKeysOf(pm) \ {res})]
 \* ---- operations, as in xheap.go / heap.go
@@ -97,7 +97,7 @@ Denotes == /\ \A k \in Keys : (pm[k] # Absent) <=> (m[k] >= 0)
            /\ \A i \in 0..(N(a) - 1) : pm[At(a, i)[1]] = At(a, i)[2]
 Present == {k \in Keys : pm[k] # Absent}
 \* the answer of Pop/Peek (judged in the state before the call, recorded in op) was a minimum
-MinAnswer == [][(Pop \/ Peek) => \A k \in Present : pm[op'.res] <= pm[k]]_vars
+MinAnswer == [][(Pop \/ Peek) => \A k \in Present : pm[op'.res] \div PDiv <= pm[k] \div PDiv]_vars
 View == <<a, m, pm, op.name = "init">>
 PmSeq(f) == [i \in 1..Cardinality(Keys) |-> f[i]]
 LState == [a |-> a, fresh |-> (op.name = "init")]
